@@ -96,7 +96,7 @@ record("JadeJob", file="jade/extensions/generic_command/generic_command_paramete
            "cancel_on_blocking_job_failure": "bool",
            "blocked_by": "Set[Name]",
            "extension": "Opaque",
-           "command": "Opaque",
+           "command": "Str",
            "append_job_name": "bool",
            "append_output_dir": "bool",
            "job_id": "Opt[int]",
